@@ -87,7 +87,16 @@ let run_main ~(eval : string -> string) ~(spec : string -> string -> string -> s
     | f :: r -> files := f :: !files; parse r
     | [] -> () in
   parse args;
-  let cases = ref 0 and mism = ref 0 and sfail = ref 0 in
+  let cases = ref 0 and mism = ref 0 and sfail = ref 0 and kfail = ref 0 and ufail = ref 0 in
+  let known_seen : (string, int) Hashtbl.t = Hashtbl.create 8 in
+  (* a failure is attributed to a known finding when its reason carries " known=<id>" *)
+  let known_id reason =
+    let key = " known=" in
+    let n = String.length reason and k = String.length key in
+    let rec find i = if i + k > n then None else if String.sub reason i k = key then Some (i + k) else find (i + 1) in
+    match find 0 with
+    | None -> None
+    | Some j -> let e = (try String.index_from reason j ' ' with Not_found -> n) in Some (String.sub reason j (e - j)) in
   let kinds = Hashtbl.create 16 in
   List.iter (fun file ->
     let ic = open_in file in
@@ -108,10 +117,21 @@ let run_main ~(eval : string -> string) ~(spec : string -> string -> string -> s
         (match (try spec !prop inp out with e -> Some ("EXC:" ^ Printexc.to_string e)) with
          | Some reason ->
            incr sfail;
-           if !sfail <= !maxrep then Printf.printf "SPECFAIL file=%s line=%d input=%s impl=%s reason=%s\n" file !ln inp out reason
+           (* untagged failures are never crowded out by tagged ones: each known finding is printed
+              at most three times, every other failure up to the report limit; all are counted *)
+           (match known_id reason with
+            | Some id ->
+              incr kfail;
+              let c = 1 + (try Hashtbl.find known_seen id with Not_found -> 0) in
+              Hashtbl.replace known_seen id c;
+              if c <= 3 then Printf.printf "SPECFAIL file=%s line=%d input=%s impl=%s reason=%s\n" file !ln inp out reason
+            | None ->
+              incr ufail;
+              if !ufail <= !maxrep then Printf.printf "SPECFAIL file=%s line=%d input=%s impl=%s reason=%s\n" file !ln inp out reason)
          | None -> ())
       end
     done with End_of_file -> ());
     close_in ic) (List.rev !files);
   Hashtbl.iter (fun k v -> Printf.printf "KIND %s %d\n" k v) kinds;
-  Printf.printf "SUMMARY cases=%d mismatches=%d specfails=%d\n" !cases !mism !sfail
+  Hashtbl.iter (fun id c -> Printf.printf "KNOWNCOUNT %s %d\n" id c) known_seen;
+  Printf.printf "SUMMARY cases=%d mismatches=%d specfails=%d knownfails=%d\n" !cases !mism !sfail !kfail
